@@ -17,6 +17,7 @@ RULE = ("moment quadruples: realisable ones computed from von-Mises mixtures (is
 ASSUMPTIONS = ["finite moments with a1^2+b1^2<1; direction grid np.linspace(0,360,N,endpoint=False) or a rotated "
                "uniform grid", "a worker process dying inside JIT code counts as 'raised'"]
 REQUIRED_MONITORS = ["C05.no-exception", "C05.finite", "C05.non-negative", "C05.integrates-to-one",
+                     "C05.default-call-unaffected-by-earlier-config", "C05.module-defaults-unchanged",
                      "C05.spectrum:e-conserved", "C05.spectrum:m0-conserved", "C05.spectrum:carry-over", "C05.spectrum:direction-grid",
                      "C05.batch==single"]
 REQUIRED_REACH = ["estimate.py:estimate_directional_distribution", "mem.py:_mem", "mem2.py:mem2",
@@ -89,8 +90,10 @@ def make_case(rng):
         q = np.asarray(w[:4])[:, None] + 10 ** rng.uniform(-9, -3) * rng.uniform(-1, 1, (4, 3))
         mclass, rank, nd, start = "collapse-witness", 1, int(w[4]), 0.0
         a1, b1, a2, b2 = q
+    # the same uniform grid written with values in [0,360): the 360 -> 0 seam then lies inside the array
+    wrap = bool(start != 0.0 and rng.uniform() < 0.5)
     return {"shape_rank": rank, "mclass": mclass, "a1": np.asarray(a1), "b1": np.asarray(b1), "a2": np.asarray(a2),
-            "b2": np.asarray(b2), "nd": nd, "start": start}
+            "b2": np.asarray(b2), "nd": nd, "start": start, "wrap": wrap}
 
 
 def unrealisable(c):
@@ -146,10 +149,73 @@ def shadow_fallbacks(c):
         return 0
 
 
+def grid_of(c):
+    nd = int(c["nd"])
+    d = c["start"] + np.arange(nd) * 360.0 / nd
+    if c.get("wrap"):
+        d = d % 360.0
+    return d
+
+
+CONFIGS = [{"atol": 0.05}, {"atol": 0.1}, {"use_mem_when_failing_to_converge": False, "atol": 0.05}, {"max_iter": 2},
+           {"max_line_search_depth": 1}, {"rcond": 1e-2}]
+
+
+def judge_config_history(ctx, c):
+    """the rarely used solver_config keyword of one call must not change what later default calls return: "each
+    spectrum gets exactly the result it would get alone". Module-level defaults are watched directly as well."""
+    from ocean_science_utilities.wavespectra.estimators.estimate import estimate_directional_distribution as edd
+    from ocean_science_utilities.wavespectra.estimators import mem2 as m2
+    d = grid_of(c)
+    a1, b1, a2, b2 = (c[k] for k in ("a1", "b1", "a2", "b2"))
+    wit = lambda: dict(c, config_history=True)  # noqa
+    ctx.case(("config-history", c["mclass"], int(c["nd"]), int(c["cfg"]), c["cfg_method"]), nontrivial=True,
+             sample={"config": CONFIGS[int(c["cfg"])], "method_of_configured_call": c["cfg_method"], "N": int(c["nd"])})
+
+    def defaults():
+        out = {}
+        for method, sm in VARIANTS:
+            kw = {} if sm is None else {"solution_method": sm}
+            try:
+                out[(method, sm)] = np.asarray(edd(a1, b1, a2, b2, d, method, **kw), float)
+            except Exception as e:  # noqa
+                out[(method, sm)] = repr(e)[:80]
+        return out
+    snap0 = dict(getattr(m2, "NUMERICS", {}))
+    r0 = defaults()
+    cfg = dict(CONFIGS[int(c["cfg"])])
+    try:
+        edd(a1, b1, a2, b2, d, "mem2", solution_method=c["cfg_method"], solver_config=cfg)
+    except Exception:
+        ctx.count("C05.configured_call_raised(allowed)")
+    ctx.count("C05.config_histories")
+    snap1 = dict(getattr(m2, "NUMERICS", {}))
+    ctx.check("C05.module-defaults-unchanged", snap0 == snap1, wit, {"before": snap0, "after": snap1, "config": cfg},
+              key="C05:config-history:module-defaults")
+    for attempt in range(3):
+        r1 = defaults()
+        bad = []
+        for k in r0:
+            a, b = r0[k], r1[k]
+            if isinstance(a, str) or isinstance(b, str):
+                if isinstance(a, str) != isinstance(b, str):
+                    bad.append(k)
+            elif a.shape != b.shape or not np.allclose(a, b, rtol=1e-9, atol=1e-12, equal_nan=True):
+                bad.append(k)
+        if not bad:
+            break
+    ctx.check("C05.default-call-unaffected-by-earlier-config", not bad, wit,
+              {"variants_that_changed": [list(map(str, k)) for k in bad], "config": cfg}, key="C05:config-history:result")
+    # leave the module as we found it so that later cases are judged on their own
+    if snap0 != snap1 and hasattr(m2, "NUMERICS"):
+        m2.NUMERICS.clear()
+        m2.NUMERICS.update(snap0)
+
+
 def judge(ctx, c, variants=VARIANTS):
     from ocean_science_utilities.wavespectra.estimators.estimate import estimate_directional_distribution as edd
     nd = int(c["nd"])
-    d = c["start"] + np.arange(nd) * 360.0 / nd
+    d = grid_of(c)
     a1, b1, a2, b2 = (c[k] for k in ("a1", "b1", "a2", "b2"))
     rank = int(c["shape_rank"])
     if rank == 0:
@@ -276,11 +342,16 @@ def run_shard(ctx, shard):
         else:
             c = make_case(rng)
             judge(ctx, c)
+            if i % 4 == 1 and not shard.get("warmup"):
+                c = dict(c, cfg=int(rng.integers(0, len(CONFIGS))), cfg_method=str(rng.choice(["newton", "newton", "scipy", "approximate"])))
+                judge_config_history(ctx, c)
 
 
 def replay(ctx, case):
     if "spectrum" in case:
         judge_spectrum(ctx, case["spectrum"])
+    elif case.get("config_history"):
+        judge_config_history(ctx, case)
     else:
         m, sm = case.get("method"), case.get("solution_method")
         judge(ctx, case, [(m, sm)] if m else VARIANTS)
